@@ -34,6 +34,8 @@ func (i *IRCServer) Marshal(lastIncludedIndex uint64) ([]byte, error) {
 	defer i.ConfigMu.RUnlock()
 	i.lastProcessedMu.RLock()
 	defer i.lastProcessedMu.RUnlock()
+	i.throttleMu.Lock()
+	defer i.throttleMu.Unlock()
 	sessions := make([]*pb.Snapshot_Session, 0, len(i.sessions))
 	for id, session := range i.sessions {
 		channels := make([]string, 0, len(session.Channels))
